@@ -108,59 +108,9 @@ def run(ctx: Ctx) -> None:
     rep.floor("C03.R2", n2, 2)
 
     # ---- R3 -------------------------------------------------------------------------------
-    gc = prog.classes.get("dds._global_ctx.GlobalContext")
-    if gc is None:
-        raise AnchorError("dds._global_ctx.GlobalContext not found")
-    attrs = []
-    init = gc.methods.get("__init__")
-    if init is not None:
-        for n in init.own_nodes():
-            if isinstance(n, (ast.Assign, ast.AnnAssign)):
-                t = n.targets[0] if isinstance(n, ast.Assign) else n.target
-                if isinstance(t, ast.Attribute):
-                    attrs.append(t.attr)
-    writers = {a: [] for a in attrs}
-    readers = {a: [] for a in attrs}
-    for f in prog.funcs.values():
-        if f_cls(f) is gc:
-            continue
-        for n in f.own_nodes():
-            if isinstance(n, ast.Attribute) and n.attr in attrs:
-                rc = types.receiver_class(f.module.name, n.value)
-                if rc is not None and rc != gc.qname:
-                    continue
-                if rc is None and not (isinstance(n.value, ast.Name) and n.value.id == "_global_context"):
-                    continue
-                par = f.module.parent.get(n)
-                if isinstance(par, ast.Subscript) and isinstance(par.ctx, (ast.Store, ast.Del)):
-                    writers[n.attr].append((f, par))
-                elif isinstance(par, ast.Attribute) and par.attr in ("update", "setdefault", "pop", "clear", "__setitem__"):
-                    writers[n.attr].append((f, par))
-                elif isinstance(par, (ast.Assign,)) and n in par.targets:
-                    writers[n.attr].append((f, par))
-                else:
-                    readers[n.attr].append((f, n))
-    # the cache whose values are *returned* as analysis results
-    returned = []
-    for a in attrs:
-        for f, n in readers[a]:
-            par = f.module.parent.get(n)
-            st = prog.enclosing_stmt(f.module, n)
-            if isinstance(st, ast.Return) and isinstance(par, ast.Subscript):
-                returned.append(a)
-    for a in sorted(set(returned)):
-        desc = f"the process-wide cache `{a}` whose entries are returned as analysis results has no writer"
-        if writers[a]:
-            f, w = writers[a][0]
-            rep.bad("C03.R3", f.qname, desc, f.loc(w), [f"{g.loc(x)}: {unparse(prog.enclosing_stmt(g.module, x), 80)}" for g, x in writers[a]] + [
-                "the key is made of object identities of *functions*; a changed tracked variable does not alter it: stale interactions (signatures) are served within a process"],
-                f"writer:{a}", what=f"the process-wide interaction cache `{a}` is written: earlier evaluations influence later signatures")
-        else:
-            rep.ok("C03.R3", gc.qname, desc, gc.module.relpath)
-    control = [a for a in attrs if writers[a]]
-    rep.floor("C03.R3.control(writers of other caches)", len(control), 1)
-    if not returned:
-        rep.unknown("C03.R3", gc.qname, "no process-wide cache is returned as an analysis result: role not found", gc.module.relpath)
+    global_cache_rule(ctx, "C03.R3")
+    from .c12 import passthrough_rules
+    passthrough_rules(ctx, "C03.R3", only=["sync_paths", "fetch_paths"])
     # (ii) identity-keyed memos in the analysis modules
     n_state = 0
     for m in prog.modules.values():
@@ -291,6 +241,75 @@ def run(ctx: Ctx) -> None:
                     rep.ok("C03.R4", f.qname, desc, f.loc(n), nontrivial=False)
                 else:
                     rep.bad("C03.R4", f.qname, desc, f.loc(n), [f"{f.loc(n)}: the branch does more than logging"], stmt_key(n), what="a debug flag changes what the analysis computes")
+
+
+def global_cache_rule(ctx: Ctx, rule: str) -> None:
+    """the process-wide cache whose entries are returned as analysis results has no writer"""
+    rep = ctx.report
+    prog = ctx.prog
+    types = ctx.types
+    gc = prog.classes.get("dds._global_ctx.GlobalContext")
+    if gc is None:
+        raise AnchorError("dds._global_ctx.GlobalContext not found")
+    attrs = []
+    init = gc.methods.get("__init__")
+    if init is not None:
+        for n in init.own_nodes():
+            if isinstance(n, (ast.Assign, ast.AnnAssign)):
+                t = n.targets[0] if isinstance(n, ast.Assign) else n.target
+                if isinstance(t, ast.Attribute):
+                    attrs.append(t.attr)
+    writers = {a: [] for a in attrs}
+    readers = {a: [] for a in attrs}
+    for f in prog.funcs.values():
+        if f_cls(f) is gc:
+            continue
+        for n in f.own_nodes():
+            if isinstance(n, ast.Attribute) and n.attr in attrs:
+                rc = types.receiver_class(f.module.name, n.value)
+                if rc is not None and rc != gc.qname:
+                    continue
+                if rc is None and not (isinstance(n.value, ast.Name) and n.value.id == "_global_context"):
+                    continue
+                par = f.module.parent.get(n)
+                if isinstance(par, ast.Subscript) and isinstance(par.ctx, (ast.Store, ast.Del)):
+                    writers[n.attr].append((f, par))
+                elif isinstance(par, ast.Attribute) and par.attr in ("update", "setdefault", "pop", "clear", "__setitem__"):
+                    writers[n.attr].append((f, par))
+                elif isinstance(par, (ast.Assign,)) and n in par.targets:
+                    writers[n.attr].append((f, par))
+                else:
+                    readers[n.attr].append((f, n))
+    # the cache whose values are *returned* as analysis results (the read value leaves the reading function by `return`)
+    returned = []
+    for a in attrs:
+        for f, n in readers[a]:
+            par = f.module.parent.get(n)
+            if isinstance(par, ast.Attribute) and par.attr in ("get", "setdefault", "pop") and isinstance(f.module.parent.get(par), ast.Call):
+                par = f.module.parent.get(par)  # the lookup call is the read
+            elif not (isinstance(par, ast.Subscript) and isinstance(par.ctx, ast.Load)):
+                continue
+            root = f
+            while root.parent is not None:
+                root = root.parent
+            fam = {q for q in prog.funcs if q == root.qname or q.startswith(root.qname + ".")}
+            fw = Forward(prog, types, funcs=fam)
+            fw.run([(f, par, f"entry of {a}")])
+            if any(o.why.startswith("returned by") for o in fw.escaped):
+                returned.append(a)
+    for a in sorted(set(returned)):
+        desc = f"the process-wide cache `{a}` whose entries are returned as analysis results has no writer"
+        if writers[a]:
+            f, w = writers[a][0]
+            rep.bad(rule, f.qname, desc, f.loc(w), [f"{g.loc(x)}: {unparse(prog.enclosing_stmt(g.module, x), 80)}" for g, x in writers[a]] + [
+                "the key is made of object identities of *functions*; a changed tracked variable does not alter it: stale interactions (signatures) are served within a process"],
+                f"writer:{a}", what=f"the process-wide interaction cache `{a}` is written: earlier evaluations influence later signatures")
+        else:
+            rep.ok(rule, gc.qname, desc, gc.module.relpath)
+    control = [a for a in attrs if writers[a]]
+    rep.floor(rule + ".control(writers of other caches)", len(control), 1)
+    if not returned:
+        rep.unknown(rule, gc.qname, "no process-wide cache is returned as an analysis result: role not found", gc.module.relpath)
 
 
 def _order_site(ctx: Ctx, f: Func, node: ast.AST) -> Optional[Tuple[ast.AST, str]]:
